@@ -266,7 +266,7 @@ def _make_funcs(fid, s, ledger):
     names = _names(s)
     collect = '(%s)' % ''.join('%s, ' % n for n in names)
     va = 'tuple(args)' if s['varargs'] else '()'
-    kwv = 'tuple(sorted(kw.items(), key=lambda kv: kv[0]))' if s['varkw'] else '()'
+    kwv = '(kworder.append(list(kw)) or tuple(sorted(kw.items(), key=lambda kv: kv[0])))' if s['varkw'] else '()'
     src = ("def f(%s):\n"
            "    return body(%s, %s, %s)\n"
            "def twin(%s):\n"
@@ -292,8 +292,10 @@ def _make_funcs(fid, s, ledger):
                 raise SimFError()
             raise SimFError('f%d armed' % fid)
         return _ret(s, fid, tuple(named), tuple(varargs), tuple(kwitems))
-    ns = {'body': body}
+    kworder = []
+    ns = {'body': body, 'kworder': kworder}
     exec(src, ns)
+    ns['f'].kworder = kworder
     return ns['f'], ns['twin']
 
 
@@ -694,6 +696,11 @@ def execute(trace, ctx=None):
                         r = do_call(o, pos2, kw2, k, how=lambda: call_with_callargs(o['real'], got))
                         if r == 'ok':
                             res.probe('call_with_callargs-checked')
+                        # **kwargs reach f in the order they were written (a function may depend on it)
+                        if r == 'ok' and s['varkw'] and f.kworder and not any(l.get('exc') for l in o['chain']):      # pd2np(exc=...) passes the excluded keywords last
+                            passed = [k2 for k2 in kwargs if k2 not in _names(s)]
+                            if f.kworder[-1] != passed and sorted(f.kworder[-1]) == sorted(passed):
+                                raise Violation('kwargs-order', 'call_with_callargs handed the undeclared keywords to f in the order %s, they were passed as %s' % (f.kworder[-1], passed), k)
                         # the dict is the caller's: it must come back as it went in, and work a second time
                         if not _deep_same(_norm_callargs(got), _norm_callargs(want)):
                             raise Violation('callargs-consumed', 'call_with_callargs altered the callargs dict it was given: now %r, was %r' % (got, want), k)
